@@ -481,10 +481,10 @@ var ruleSpecs = append([]ruleSpec{
 				xs, ys, ops []string
 			}
 			pools := []pool{
-				{[]string{"a", "b", "xs[a]", "xs[fi()]", "mi[0]", "ma[1]", "pa[2]"}, []string{"1", "b", "c", "fi()", "3", "a"},
+				{[]string{"a", "b", "xs[a]", "xs[fi()]", "mi[0]", "ma[1]", "pa[2]", "w.avail", "mi[a]", "xs[b+1]"}, []string{"1", "b", "c", "fi()", "3", "a", "cLim", "cOne", "0x1", "01", "a * b", "(b)"},
 					[]string{"+", "-", "*", "/", "%", "&", "|", "^", "<<", ">>", "&^"}},
 				{[]string{"u", "v"}, []string{"1", "v", "u", "fu()", "3"}, []string{"+", "*", "/", "%", "&", "|", "^", "<<", ">>", "&^"}},
-				{[]string{"p", "q"}, []string{"1", "q", "p", "ff()", "2.5"}, []string{"+", "-", "*", "/"}},
+				{[]string{"p", "q", "mf", "w.g"}, []string{"1", "q", "p", "ff()", "2.5", "1.0", "cF", "0x1"}, []string{"+", "-", "*", "/"}},
 				{[]string{"s", "t"}, []string{"t", "s", `"a"`, "fs()", `"é"`}, []string{"+"}},
 				{[]string{"ms"}, []string{"ms", `"a"`, "myStr(t)"}, []string{"+"}},
 				{[]string{"mm[0]", "w.buf[0]"}, []string{"t", `"b"`, "1"}, []string{"+"}},
@@ -511,10 +511,20 @@ var ruleSpecs = append([]ruleSpec{
 		}},
 	{checker: "valSwap", kind: "stmts",
 		gen: func(p func(...string) string) string {
-			x := p("a", "xs[a]", "xs[fi()]", "s", "xs[0]", "xs[b]")
-			y := p("b", "xs[b]", "xs[gi()]", "t", "xs[1]", "b")
-			if (x == "s") != (y == "t") {
+			x := p("a", "xs[a]", "xs[fi()]", "s", "xs[0]", "xs[b]", "w.avail", "mi[0]", "ma[0]", "mf")
+			y := p("b", "xs[b]", "xs[gi()]", "t", "xs[1]", "b", "c", "mi[1]", "ma[2]", "mg")
+			if (x == "s") != (y == "t") || (x == "mf") != (y == "mg") {
 				x, y = "a", "b"
+			}
+			switch p("plain", "plain", "plain", "around", "apart", "othertmp") {
+			case "around": // the three statements inside a longer list
+				return "c = 1; tmp := " + y + "; " + y + " = " + x + "; " + x + " = tmp; c = c + 2"
+			case "apart": // not adjacent: no swap idiom
+				return "tmp := " + y + "; c = 4; " + y + " = " + x + "; " + x + " = tmp"
+			case "othertmp": // the third statement reads another variable
+				if x == "a" || x == "xs[a]" || x == "xs[0]" || x == "xs[b]" || x == "w.avail" || x == "mi[0]" || x == "ma[0]" {
+					return "tmp := " + y + "; " + y + " = " + x + "; " + x + " = c; _ = tmp"
+				}
 			}
 			if p("v", "v", "v", "list") == "list" {
 				// an operand reached THROUGH the other one: a linked list step
@@ -542,14 +552,22 @@ var ruleSpecs = append([]ruleSpec{
 		}},
 	{checker: "switchTrue", kind: "stmts",
 		gen: func(p func(...string) string) string {
-			return "switch true {\n\tcase " + p("a > b", "fb()", "k") + ":\n\t\tc = 1\n\tcase " + p("a == b", "fb()", "l") + ":\n\t\tc = 2\n\tdefault:\n\t\tc = 3\n\t}"
+			// the tag is matched by its spelling: the predeclared constant, and a variable that shadows it
+			pro := p("", "", "", "true := l; k = true; ", "true := a > 1; k = true; ")
+			tag := p("true", "true", "true", "true", "k", "false", "cT > 1")
+			return pro + "switch " + tag + " {\n\tcase " + p("a > b", "fb()", "k", "a > cLim") + ":\n\t\tc = 1\n\tcase " + p("a == b", "fb()", "l") + ":\n\t\tc = 2\n\tdefault:\n\t\tc = 3\n\t}"
 		},
 		rewrite: func(l *exprgen.Linted, w linter.Warning, body string) (string, string, bool) {
 			if !strings.Contains(w.Text, "replace 'switch true {}' with 'switch {}'") {
 				return "", "", false
 			}
 			return body, strings.Replace(body, "switch true {", "switch {", 1), true
-		}, class: classPurity},
+		}, class: func(orig, _ string) string {
+			if strings.Contains(orig, "true :=") {
+				return "shadowed-true"
+			}
+			return classPurity(orig, "")
+		}},
 }, append(append(handSpecs, fmtSpecs...), deferSpecs...)...)
 
 const rulesLintHeader = "package p\n\nimport (\n\t\"bytes\"\n\t\"fmt\"\n\t\"strings\"\n\t\"time\"\n)\n\nvar _ = bytes.Equal\nvar _ = strings.Index\nvar _ time.Time\nvar _ = fmt.Sprint\n"
@@ -657,6 +675,7 @@ func runRules(meta *common.Meta, tier string, seed int64, outDir string) {
 		p    *ruleProg
 		text string
 	}
+	stmtObs := map[string][]string{}
 	for _, sp := range ruleSpecs {
 		ws, err := l.Run(sp.checker)
 		if err != nil {
@@ -667,6 +686,7 @@ func runRules(meta *common.Meta, tier string, seed int64, outDir string) {
 			if p == nil || p.checker != sp.checker {
 				continue
 			}
+			stmtObs[p.fn] = append(stmtObs[p.fn], w.Text)
 			orig, repl, ok := sp.rewrite(l, w, p.body)
 			if !ok {
 				continue
@@ -711,6 +731,7 @@ func runRules(meta *common.Meta, tier string, seed int64, outDir string) {
 	}
 	meta.Distribution["rules_fired"] = fired
 	meta.Distribution["rule_programs"] = len(keep)
+	runStmtTie(meta, outDir, l, keep, stmtObs)
 	meta.Distinct += len(dcs)
 	mm, evals, err := exprgen.RunDiff(filepath.Join(outDir, "diff_rules"), dcs)
 	if err != nil {
